@@ -748,6 +748,11 @@ class Gen:
                 rec[k] = [self.colspec(c, r.choice(num), infos) for _ in range(r.choice([1, 1, 1, 2, 3]))]
         else:
             rec["count_over"] = [self.colspec(c, r.randrange(c.ncols), infos)]
+        if num and r.random() < 0.04:
+            # one aggregate asked for the same column a dozen times: a dozen outputs with one base name
+            k = r.choice(["sum_over", "count_over", "max_over"])
+            rec[k] = [self.colspec(c, r.choice(num), infos)] * r.randint(11, 13)
+            rec[k] = [dict(x) for x in rec[k]]
         if r.random() < 0.3:
             names = ["n", "first", "a", "a_sum", "a_sum2", "b_count2", "key", "key2", "col_sum2"]
             rec["apply"] = [{"name": nm, "col": self.colspec(c, r.randrange(c.ncols), infos),
